@@ -28,6 +28,9 @@ type e2eItem struct {
 	Salt   int     `json:"salt,omitempty"`
 	Ov     []detOv `json:"ov,omitempty"`
 	FFC    bool    `json:"ffc,omitempty"` // an FFC happens at this frame (Lepton)
+	// the telemetry's FFC state field (status bits 4-5: 0 never, 1 imminent, 2 running, 3 complete); stored nowhere,
+	// and must not change what happens to the frame - a bad frame is bad whatever the telemetry says
+	FFCState int `json:"ffc_state,omitempty"`
 	Poison bool    `json:"starts_with_marker_bytes,omitempty"` // Boson: the frame's first five bytes are "clear"
 	Temp   int     `json:"fpatemp_centik,omitempty"`
 	TempFF int     `json:"fpatemp_lastffc_centik,omitempty"`
@@ -246,6 +249,7 @@ func (in e2eInput) rawFrames() (raws [][]byte, timeon, lastffc []int) {
 			put32(2, uint32(ton))
 			put32(40, uint32(idx))
 			put16(44, 0)
+			raw[7] = byte(it.FFCState&3) << 4
 			put16(48, it.Temp)
 			put16(58, it.TempFF)
 			put32(60, uint32(last))
@@ -722,7 +726,13 @@ func e2eGen1(rng *rand.Rand, i int) e2eInput {
 		if in.Format == "lepton" && rng.Intn(45) == 0 {
 			it.FFC = true
 		}
+		if in.Format == "lepton" {
+			it.FFCState = []int{0, 0, 3, 3, 1, 2}[rng.Intn(6)]
+		}
 		if rng.Intn(50) == 0 { // a bad frame: zero pixel in the interior
+			if in.Format == "lepton" {
+				it.FFCState = []int{2, 2, 0, 3}[rng.Intn(4)]
+			}
 			it.Ov = append([]detOv{{eff.EdgePixels + rng.Intn(in.H-2*eff.EdgePixels), eff.EdgePixels + rng.Intn(in.W-2*eff.EdgePixels), 0}}, it.Ov...)
 		}
 		if rng.Intn(30) == 0 { // extreme values on the border and inside
